@@ -129,6 +129,19 @@ int main(int argc, char** argv) {
                         if (xpath.getMatchScore(n, res, ctx) != XPath::eMatchScoreNone) { if (!first) out += ","; first = false; out += "[" + std::to_string(d) + "," + std::to_string(i) + ",0]"; }
                     }
                     out += "]";
+                    // what the stylesheet files the pattern under (XPath::getTargetData): per alternative the key string,
+                    // the node kind it is filed for and the default priority in eighths
+                    XPath::TargetDataVectorType td(mm);
+                    xpath.getTargetData(td);
+                    out += ",\"targets\":[";
+                    for (XPath::TargetDataVectorType::size_type k = 0; k < td.size(); ++k) {
+                        if (k) out += ",";
+                        const char* ty = td[k].getTargetType() == XPath::TargetData::eAttribute ? "attr" : td[k].getTargetType() == XPath::TargetData::eElement ? "elem" :
+                                         td[k].getTargetType() == XPath::TargetData::eAny ? "any" : "other";
+                        out += "{\"s\":" + cpArray(XalanDOMString(td[k].getString(), mm)) + ",\"t\":\"" + ty + "\",\"p8\":" +
+                               std::to_string((int)(XPath::getMatchScoreValue(td[k].getDefaultPriority()) * 8.0)) + "}";
+                    }
+                    out += "]";
                 } else {
                     proc.initXPath(xpath, cctx, text, res);
                     // context node list of the requested size with the context node at the requested position
